@@ -69,6 +69,39 @@ Proof. unfold get. rewrite values_set_same. reflexivity. Qed.
 Lemma get_set_other k k' v h : k <> k' -> get k (set k' v h) = get k h.
 Proof. intro H. unfold get. rewrite values_set_other by exact H. reflexivity. Qed.
 
+(* mergeMetadataHeaders(into, from) (header.go): what the three writers of an
+   error's metadata use.  The names in [metadata_excluded_headers] (extracted
+   from the switch in that function; empty when a writer still uses
+   mergeHeaders) describe an HTTP message itself and are left out. *)
+Definition message_header (k : bytes) : bool := existsb (bs_eqb k) metadata_excluded_headers.
+Definition metadata_only (m : hmap) : hmap := filter (fun e => negb (message_header (fst e))) m.
+Definition merge_metadata (into from : hmap) : hmap := merge into (metadata_only from).
+
+Lemma message_header_ext k k' : bs_eqb k k' = true -> message_header k = message_header k'.
+Proof. intro E. apply bs_eqb_eq in E. subst. reflexivity. Qed.
+
+Lemma values_metadata_only k m :
+  values k (metadata_only m) = if message_header k then [] else values k m.
+Proof.
+  induction m as [|[k' vs] r IH]; cbn [metadata_only filter values fst].
+  - destruct (message_header k); reflexivity.
+  - fold (metadata_only r). destruct (bs_eqb k k') eqn:E.
+    + rewrite <- (message_header_ext _ _ E).
+      destruct (message_header k) eqn:M; cbn [negb].
+      * rewrite IH. reflexivity.
+      * cbn [values]. rewrite E, IH. reflexivity.
+    + destruct (message_header k') eqn:M'; cbn [negb]; [exact IH|].
+      cbn [values]. rewrite E. exact IH.
+Qed.
+
+Lemma values_merge_metadata k into from :
+  values k (merge_metadata into from) =
+  values k into ++ (if message_header k then [] else values k from).
+Proof. unfold merge_metadata. rewrite values_merge, values_metadata_only. reflexivity. Qed.
+
+Lemma metadata_only_subset e m : In e (metadata_only m) -> In e m.
+Proof. unfold metadata_only. rewrite filter_In. tauto. Qed.
+
 (* ---- Connect unary: trailers travel as headers with the "Trailer-" prefix ---- *)
 
 (* writeResponseHeader: header[prefix+k] = v for every trailer entry *)
